@@ -97,22 +97,24 @@ def generator_invalid(s: sg.Schema) -> Optional[str]:
 
 
 def conv_type_outside_imports(s: sg.Schema) -> Optional[str]:
-    """Class of the finding `go-missing-import`: some message field's accessor conversion type
-    (the innermost named single type reached through aliases and arrays, see
-    BlockMessageMethodBpSetByteItem) is defined in a proto file that the message's file does
-    not import directly.  Returns a description or None."""
+    """Class of the finding `go-missing-import` (a necessary condition, by call site and cause):
+    some message field's accessor conversion type (the innermost named single type reached
+    through aliases and arrays, see BlockMessageMethodBpSetByteItem) is referenced from an alias
+    defined in ANOTHER file than the message's and is itself defined outside the message's file;
+    the emitted qualifier is then the name under which some other file imports that proto.
+    Returns a description or None."""
     seen = set()
 
     def walk_msg(m: sg.T) -> Optional[str]:
         if id(m) in seen:
             return None
         seen.add(id(m))
-        vis = {m.file} | {fi for fi, _ in s.files[m.file].imports}
         for num, name, ft in m.fields:
-            t, conv = ft, None
+            t, conv, ref_file = ft, None, m.file
             while True:
                 if t.kind == "alias":
                     if t.t.kind == "arr":
+                        ref_file = t.file
                         t = t.t
                         continue
                     conv = t
@@ -123,9 +125,10 @@ def conv_type_outside_imports(s: sg.Schema) -> Optional[str]:
                 break
             if conv is None and t.kind == "enum":
                 conv = t
-            if conv is not None and conv.file not in vis:
-                return (f"message {m.name} (file {s.files[m.file].base}) field {name}: conversion type {conv.name} is "
-                        f"defined in {s.files[conv.file].base}, which that file does not import")
+            if conv is not None and ref_file != m.file and conv.file != m.file:
+                return (f"message {m.name} (file {s.files[m.file].base}) field {name}: conversion type {conv.name} "
+                        f"(defined in {s.files[conv.file].base}) is referenced from an alias of file "
+                        f"{s.files[ref_file].base}")
             inner = _strip(ft)
             if inner.kind == "msg":
                 r = walk_msg(inner)
@@ -133,7 +136,7 @@ def conv_type_outside_imports(s: sg.Schema) -> Optional[str]:
                     return r
         return None
 
-    return walk_msg(s.top) if len(s.files) > 2 else None
+    return walk_msg(s.top) if len(s.files) > 1 else None
 
 
 class Shards(pyside.Shards):
